@@ -50,80 +50,111 @@ pub fn run(case: &Value, params: &Params, out: &mut Vec<Value>) {
     }
 }
 
-fn run_t<T: SortElem>(case: &Value, params: &Params, lane: Vec<T>, out: &mut Vec<Value>) {
+/// One call of the routine named by the case on any mutable 1-D representation; everything but the array afterwards.
+fn call_one<T: SortElem, S: ndarray::DataMut<Elem = T>>(case: &Value, arr: &mut ndarray::ArrayBase<S, ndarray::Ix1>, rm: &std::collections::BTreeMap<T, i64>, lane: &[T], stride: isize) -> serde_json::Map<String, Value> {
     let ev = jstr(case, "ev", "");
-    let keyed = case.get("keyed").and_then(|x| x.as_bool()).unwrap_or(false);
-    let rm = rank_map(&lane);
-    let before = ranks_of(&rm, &lane);
     let script: Vec<usize> = jints(&case["pv"]).into_iter().map(|x| x as usize).collect();
     let fb = fallback(jstr(case, "fb", "drawn"));
+    let before = ranks_of(rm, lane);
+    let v = match ev {
+        "partition" => {
+            let p = to_usize(jint(case, "p"));
+            let r = guarded(|| arr.partition_mut(p));
+            json!({"ev": "partition", "stride": stride, "a": before, "p": from_usize(p),
+                "out": if r.is_ok() {"ok"} else {"panic"}, "k": r.map(from_usize).unwrap_or(0)})
+        }
+        "select" => {
+            let i = to_usize(jint(case, "i"));
+            verif_hooks::set_script(script.clone(), fb);
+            let r = guarded(|| arr.get_from_sorted_mut(i));
+            let log = verif_hooks::take_log();
+            let pv: Vec<Value> = log.iter().map(|&(n, p)| json!([n, p])).collect();
+            json!({"ev": "select", "stride": stride, "a": before, "i": from_usize(i),
+                "out": if r.is_ok() {"ok"} else {"panic"}, "ret": r.map(|v| rank_of(rm, &v)).unwrap_or(0), "pv": pv})
+        }
+        "bulk" => {
+            let idx: Vec<usize> = jints(&case["idx"]).into_iter().map(to_usize).collect();
+            let idx_arr = Array1::from(idx.clone());
+            verif_hooks::set_script(script.clone(), fb);
+            let r = guarded(|| arr.get_many_from_sorted_mut(&idx_arr));
+            let log = verif_hooks::take_log();
+            let pv: Vec<Value> = log.iter().map(|&(n, p)| json!([n, p])).collect();
+            let (keys, vals): (Vec<i64>, Vec<i64>) = match &r {
+                Ok(m) => m.iter().map(|(&k, v)| (from_usize(k), rank_of(rm, v))).unzip(),
+                Err(()) => (vec![], vec![]),
+            };
+            json!({"ev": "bulk", "stride": stride, "a": before, "idx": idx.iter().map(|&x| from_usize(x)).collect::<Vec<_>>(),
+                "out": if r.is_ok() {"ok"} else {"panic"}, "keys": keys, "vals": vals, "pv": pv})
+        }
+        "bulkpair" => {
+            // C18: the bulk form against the single form, index by index, on clones of the same input
+            let idx: Vec<usize> = jints(&case["idx"]).into_iter().map(to_usize).collect();
+            let idx_arr = Array1::from(idx.clone());
+            verif_hooks::set_script(script.clone(), fb);
+            let r = guarded(|| arr.get_many_from_sorted_mut(&idx_arr));
+            verif_hooks::take_log();
+            let (keys, vals): (Vec<i64>, Vec<i64>) = match &r {
+                Ok(m) => m.iter().map(|(&k, v)| (from_usize(k), rank_of(rm, v))).unzip(),
+                Err(()) => (vec![], vec![]),
+            };
+            let singles: Vec<Value> = idx.iter().map(|&i| {
+                let mut st2 = Strided::new(lane, stride, 2, |k| T::pad(k));
+                verif_hooks::set_script(vec![], Fallback::Drawn);
+                let r2 = guarded(|| st2.view_mut().get_from_sorted_mut(i));
+                verif_hooks::take_log();
+                json!({"i": from_usize(i), "out": if r2.is_ok() {"ok"} else {"panic"}, "ret": r2.map(|v| rank_of(rm, &v)).unwrap_or(0)})
+            }).collect();
+            json!({"ev": "bulkpair", "stride": stride, "a": before, "idx": idx.iter().map(|&x| from_usize(x)).collect::<Vec<_>>(),
+                "out": if r.is_ok() {"ok"} else {"panic"}, "keys": keys, "vals": vals, "singles": singles})
+        }
+        _ => panic!("unknown sort event {ev}"),
+    };
+    v.as_object().unwrap().clone()
+}
+
+fn run_t<T: SortElem>(case: &Value, params: &Params, lane: Vec<T>, out: &mut Vec<Value>) {
+    let keyed = case.get("keyed").and_then(|x| x.as_bool()).unwrap_or(false);
+    let rm = rank_map(&lane);
     let frame = params.get("frame").map(|s| s == "1").unwrap_or(false);
+    let rep = jstr(case, "rep", "view");
+    if rep != "view" {
+        // copy-on-write representations that are NOT uniquely held at the time of the call: a second handle of a shared
+        // ArcArray1, or a CowArray borrowing another array.  The call must behave as on an owned array and the other
+        // handle / the borrowed array must keep its contents.
+        let base = Array1::from(lane.clone());
+        let (mut o, after, other): (serde_json::Map<String, Value>, Vec<T>, Vec<T>) = if rep == "arc" {
+            let shared: ndarray::ArcArray1<T> = base.clone().into_shared();
+            let mut mine = shared.clone();
+            let o = call_one(case, &mut mine, &rm, &lane, 1);
+            (o, mine.to_vec(), shared.to_vec())
+        } else {
+            let mut cow: ndarray::CowArray<'_, T, ndarray::Ix1> = ndarray::CowArray::from(base.view());
+            let o = call_one(case, &mut cow, &rm, &lane, 1);
+            let after = cow.to_vec();
+            (o, after, base.to_vec())
+        };
+        o.insert("after".into(), json!(ranks_of(&rm, &after)));
+        o.insert("rep".into(), json!(rep));
+        // rank over identities too for keyed elements: the other handle is untouched cell by cell
+        let same = other.len() == lane.len() && other.iter().zip(lane.iter()).all(|(x, y)| x == y && x.ident() == y.ident());
+        o.insert("other_ok".into(), json!(same));
+        if keyed {
+            o.insert("ida".into(), json!(lane.iter().map(|x| rank_of(&rm, x) * 4096 + x.ident()).collect::<Vec<i64>>()));
+            o.insert("idafter".into(), json!(after.iter().map(|x| rank_of(&rm, x) * 4096 + x.ident()).collect::<Vec<i64>>()));
+        }
+        out.push(Value::Object(o));
+        return;
+    }
     for stride in strides(case, params) {
         // pad cells hold distinct values below every lane value, so any write outside the view shows
         let mut st = Strided::new(&lane, stride, 2, |k| T::pad(k));
         let pm0: Vec<T> = st.parent.to_vec();
         let vin = json!({"ptr": if st.n == 0 { 0 } else { st.addr(0) }, "len": st.n, "stride": stride});
-        match ev {
-            "partition" => {
-                let p = to_usize(jint(case, "p"));
-                let r = guarded(|| st.view_mut().partition_mut(p));
-                let after = ranks_of(&rm, &st.lane());
-                out.push(json!({"ev": "partition", "stride": stride, "a": before, "p": from_usize(p),
-                    "out": if r.is_ok() {"ok"} else {"panic"},
-                    "k": r.map(from_usize).unwrap_or(0), "after": after}));
-            }
-            "select" => {
-                let i = to_usize(jint(case, "i"));
-                verif_hooks::set_script(script.clone(), fb);
-                let r = guarded(|| st.view_mut().get_from_sorted_mut(i));
-                let log = verif_hooks::take_log();
-                let after = ranks_of(&rm, &st.lane());
-                let pv: Vec<Value> = log.iter().map(|&(n, p)| json!([n, p])).collect();
-                out.push(json!({"ev": "select", "stride": stride, "a": before, "i": from_usize(i),
-                    "out": if r.is_ok() {"ok"} else {"panic"},
-                    "ret": r.map(|v| rank_of(&rm, &v)).unwrap_or(0), "after": after, "pv": pv}));
-            }
-            "bulk" => {
-                let idx: Vec<usize> = jints(&case["idx"]).into_iter().map(to_usize).collect();
-                let idx_arr = Array1::from(idx.clone());
-                verif_hooks::set_script(script.clone(), fb);
-                let r = guarded(|| st.view_mut().get_many_from_sorted_mut(&idx_arr));
-                let log = verif_hooks::take_log();
-                let after = ranks_of(&rm, &st.lane());
-                let pv: Vec<Value> = log.iter().map(|&(n, p)| json!([n, p])).collect();
-                let (keys, vals): (Vec<i64>, Vec<i64>) = match &r {
-                    Ok(m) => m.iter().map(|(&k, v)| (from_usize(k), rank_of(&rm, v))).unzip(),
-                    Err(()) => (vec![], vec![]),
-                };
-                out.push(json!({"ev": "bulk", "stride": stride, "a": before,
-                    "idx": idx.iter().map(|&x| from_usize(x)).collect::<Vec<_>>(),
-                    "out": if r.is_ok() {"ok"} else {"panic"},
-                    "keys": keys, "vals": vals, "after": after, "pv": pv}));
-            }
-            "bulkpair" => {
-                // C18: the bulk form against the single form, index by index, on clones of the same input
-                let idx: Vec<usize> = jints(&case["idx"]).into_iter().map(to_usize).collect();
-                let idx_arr = Array1::from(idx.clone());
-                verif_hooks::set_script(script.clone(), fb);
-                let r = guarded(|| st.view_mut().get_many_from_sorted_mut(&idx_arr));
-                verif_hooks::take_log();
-                let (keys, vals): (Vec<i64>, Vec<i64>) = match &r {
-                    Ok(m) => m.iter().map(|(&k, v)| (from_usize(k), rank_of(&rm, v))).unzip(),
-                    Err(()) => (vec![], vec![]),
-                };
-                let singles: Vec<Value> = idx.iter().map(|&i| {
-                    let mut st2 = Strided::new(&lane, stride, 2, |k| T::pad(k));
-                    verif_hooks::set_script(vec![], Fallback::Drawn);
-                    let r2 = guarded(|| st2.view_mut().get_from_sorted_mut(i));
-                    verif_hooks::take_log();
-                    json!({"i": from_usize(i), "out": if r2.is_ok() {"ok"} else {"panic"}, "ret": r2.map(|v| rank_of(&rm, &v)).unwrap_or(0)})
-                }).collect();
-                out.push(json!({"ev": "bulkpair", "stride": stride, "a": before,
-                    "idx": idx.iter().map(|&x| from_usize(x)).collect::<Vec<_>>(),
-                    "out": if r.is_ok() {"ok"} else {"panic"}, "keys": keys, "vals": vals, "singles": singles}));
-            }
-            _ => panic!("unknown sort event {ev}"),
-        }
+        let mut o = { let mut v = st.view_mut(); call_one(case, &mut v, &rm, &lane, stride) };
+        if jstr(case, "ev", "") != "bulkpair" { o.insert("after".into(), json!(ranks_of(&rm, &st.lane()))); }
+        o.insert("rep".into(), json!("view"));
+        o.insert("other_ok".into(), json!(true));
+        out.push(Value::Object(o));
         if frame {
             // parent buffer before/after in rank space (ranks over everything the buffer ever held)
             let pm1: Vec<T> = st.parent.to_vec();
@@ -161,7 +192,8 @@ pub fn gen(seed: u64, count: usize, tier: &str, params: &Params) -> Vec<Value> {
     let mut cases = Vec::new();
     for c in 0..count {
         let longlanes = params.get("long").map(|s| s == "1").unwrap_or(false);
-        let n = if longlanes { rng.range(120, 200) } else if c % 17 == 0 { rng.range(0, 3) } else { rng.range(1, maxlen) };
+        let blocks = params.get("long").map(|s| s == "2").unwrap_or(false);
+        let n = if blocks { *rng.pick(&[63i64, 64, 65, 127, 128, 128, 129, 191, 192, 192, 193, 255, 256, 256, 257]) } else if longlanes { rng.range(120, 200) } else if c % 17 == 0 { rng.range(0, 3) } else { rng.range(1, maxlen) };
         let n = if oor_den == 0 { n.max(1) } else { n };
         let distinct = match rng.below(4) {
             0 => 1 + rng.below(2) as i64,
@@ -184,6 +216,9 @@ pub fn gen(seed: u64, count: usize, tier: &str, params: &Params) -> Vec<Value> {
         let strides = json!([*rng.pick(&[1, 1, 2, -1, -3, 3, -2])]);
         let script: Vec<i64> = if rng.chance(1, 3) { (0..rng.below(8)).map(|_| rng.below(1000) as i64).collect() } else { vec![] };
         let oor = oor_den > 0 && rng.chance(1, oor_den);
+        // representation: mostly mutable views; sometimes a shared ArcArray1 handle or a borrowing CowArray
+        let rep = if params.get("reps").map(|s| s == "0").unwrap_or(false) { "view" } else { match rng.below(10) { 0 => "arc", 1 => "cow", _ => "view" } };
+        let n0 = cases.len();
         match *rng.pick(&kinds) {
             "partition" => {
                 let p = if oor || n == 0 { oor_pos(&mut rng, n) } else { rng.range(0, n - 1) };
@@ -202,6 +237,11 @@ pub fn gen(seed: u64, count: usize, tier: &str, params: &Params) -> Vec<Value> {
                 }
                 cases.push(json!({"ev": if kind == "bulkpair" { "bulkpair" } else { "bulk" }, "a": a, "idx": idx, "pv": script, "fb": fb, "vmap": vmap, "strides": strides, "keyed": keyed}));
             }
+        }
+        if rep != "view" && cases.len() > n0 && cases[n0]["ev"] != "bulkpair" {
+            // the pivot already in front is the path on which no checked mutable access happens before the loop
+            if cases[n0]["ev"] == "partition" && n > 0 && rng.chance(1, 2) { cases[n0]["p"] = json!(0); }
+            cases[n0]["rep"] = json!(rep);
         }
     }
     cases
